@@ -911,6 +911,8 @@ func (t *fnTrans) funcRef(f *ssa.Function) Term {
 	if !t.declared[n] {
 		t.declare(n, "Int")
 		t.cons = append(t.cons, constraint{0, false, fmt.Sprintf("(> %s 0)", n)})
+		// the name of the function behind the value (spec builtin fnname(), also when the value travels through a slice or a field)
+		t.cons = append(t.cons, constraint{0, false, fmt.Sprintf("(= (fnname_of %s) %s)", n, t.S.strLit(strings.TrimSuffix(f.String(), "$bound")))})
 	}
 	return n
 }
